@@ -154,6 +154,16 @@ class RabbitMessageBroker(MessageBrokerT):
     ) -> None:
         logger_extra = {"routing_key": key}
         logger.debug("Requeueing message ({routing_key}).", extra=logger_extra)
+        # once started, ack + publish have to run to the end: a cancellation
+        # between the two would lose the message
+        await asyncio.shield(self.__ack_and_enqueue(key, payload, params))
+
+    async def __ack_and_enqueue(
+        self,
+        key: RoutingKeyT,
+        payload: str,
+        params: ParametersT | None,
+    ) -> None:
         await self.ack(key)
         await self.enqueue(key, payload, params)
 
